@@ -437,6 +437,11 @@ func (a *oauth2IntrospectionAuthenticator) getCacheTTL(introspectResp *oauth2.In
 		},
 		func() time.Duration { return 0 })
 
+	if introspectResp.Expiry != nil && introspectionResponseTTL == 0 {
+		// the token expires within the leeway (or is already expired): nothing to cache
+		return 0
+	}
+
 	configuredTTL := x.IfThenElseExec(a.ttl != nil,
 		func() time.Duration { return *a.ttl },
 		func() time.Duration { return 0 })
